@@ -221,6 +221,14 @@ def gen_case(rng, maxN, big_n=100000):
 
 
 # ----------------------------------------------------------------------------- the real code
+SPELLINGS = {"logt": ["logt", "logt", "LogT", "LOGT", "logT"], "t": ["t", "t", "T"]}
+
+
+def spelling(mode, k):
+    v = SPELLINGS[mode]
+    return v[k % len(v)]
+
+
 def float_logL(case):
     ll = []
     for a, e in case["L"]:
@@ -245,7 +253,12 @@ def run_real(case, offset=None):
     ll = float_logL(case) + off
     n, mode = case["n"], case["mode"]
     out = {}
-    st = _NSIntegralState(n, track_gradients=case.get("track", False), expectation=mode)
+    # the option is documented as case-insensitive ("Expectation must be t or logt", compared after .lower()): every case
+    # is run under one of the accepted spellings, chosen by its content (seeded change C02-d: the state kept the spelling
+    # the user gave while increment compares with the lower-case name)
+    spell = spelling(mode, len(ll) + int(n))
+    out["spelling"] = spell
+    st = _NSIntegralState(n, track_gradients=case.get("track", False), expectation=spell)
     try:
         if case["kind"] == "sampler":
             k = len(ll) - n
@@ -289,10 +302,10 @@ def run_real(case, offset=None):
         out["state"] = _exc(e)
     try:
         if case["kind"] == "sampler":
-            z, w = compute_weights(ll, n, expectation=mode)
+            z, w = compute_weights(ll, n, expectation=spelling(mode, len(ll) + int(n) + 1))
         else:
             arr = np.array(case["ns"], dtype=(int if case.get("arr_dtype") == "int" else float))
-            z, w = compute_weights(ll, arr, expectation=mode)
+            z, w = compute_weights(ll, arr, expectation=spelling(mode, len(ll) + int(n) + 1))
         out["cw_logZ"], out["cw_logw"], out["cw"] = float(z), np.array(w, dtype=float), "ok"
     except Exception as e:  # noqa
         out["cw"] = _exc(e)
